@@ -1,5 +1,6 @@
 // C19: no hidden shared state across threads; ThreadLocal is per thread and slot.
-// Deciding pass: every pair of bodies (and one 3-thread set) under the preemption-bounded scheduler of
+// Deciding pass: every pair of the eight small bodies, the all-encodings body "wide" with itself and with the two other
+// serialisation bodies (and one 3-thread set) under the preemption-bounded scheduler of
 // harness/vsched.h; every schedule with <= P preemptions is executed and each thread's observation log must equal
 // the log of the same body run alone. Visibility pass (--free, built with -fsanitize=thread): the same bodies run
 // free on 4 threads x 200 iterations; ThreadSanitizer must stay silent.
@@ -27,6 +28,14 @@
 #include <nop/base/tuple.h>
 #include <nop/base/variant.h>
 #include <nop/base/vector.h>
+#include <nop/base/array.h>
+#include <nop/base/enum.h>
+#include <nop/base/logical_buffer.h>
+#include <nop/base/pair.h>
+#include <nop/base/result.h>
+#include <nop/types/optional.h>
+#include <nop/types/result.h>
+#include <unordered_map>
 
 #include "report.h"
 #include "vsched.h"
@@ -316,10 +325,84 @@ static void body_tls_ctor(int k, Log& log) {
   log.push_back("live:" + std::to_string(YElem::live));
 }
 
+
+// B8: one value that passes through every kind of encoding (arrays, pair, tuple, unordered_map, optional, variant,
+// result, enum, integral vector, wide string, floating point, C array, logical buffer, table with deleted entry)
+enum class WErr { None, Bad, Worse };
+enum class WEnum : std::uint16_t { A = 1, B = 300 };
+struct WTab {
+  nop::Entry<std::string, 1> a; nop::Entry<int, 2, nop::DeletedEntry> gone; nop::Entry<nop::Optional<Elem>, 70000> o;
+  NOP_TABLE_NS("c19.WTab", WTab, a, gone, o);
+};
+struct Wide {
+  std::array<Elem, 2> arr; std::pair<int, std::string> pr; std::tuple<int, std::string, double> tp;
+  std::unordered_map<int, std::string> um; nop::Optional<std::string> op; nop::Optional<int> none;
+  nop::Variant<int, std::string, Elem> var; nop::Result<WErr, std::string> res, err; WEnum en; std::vector<int> bin;
+  std::u16string ws; float f; bool b; int carr[3]; std::array<std::int16_t, 4> lb; std::uint8_t lbn; WTab tab;
+  std::vector<std::vector<std::string>> vv; std::map<std::string, std::vector<int>> mv;
+  NOP_STRUCTURE(Wide, arr, pr, tp, um, op, none, var, res, err, en, bin, ws, f, b, carr, (lb, lbn), tab, vv, mv);
+};
+static Wide make_wide(int k) {
+  Wide w;
+  w.arr = {{Elem{k, std::string(1, (char)('a' + k)), k + 1}, Elem{k + 2, std::string(1, (char)('b' + k)), k + 3}}};
+  w.pr = {k + 4, "p" + std::to_string(k)};
+  w.tp = std::make_tuple(k + 5, "t" + std::to_string(k), k + 0.5);
+  w.um = {{k + 6, "u" + std::to_string(k)}};
+  w.op = "o" + std::to_string(k);
+  w.var = Elem{k + 7, "v" + std::to_string(k), k + 8};
+  w.res = std::string("r") + std::to_string(k);
+  w.err = k % 2 ? WErr::Bad : WErr::Worse;
+  w.en = k % 2 ? WEnum::A : WEnum::B;
+  w.bin = {k + 9, k + 10, k + 11};
+  w.ws = std::u16string(2, (char16_t)(0x100 + k));
+  w.f = k + 0.25f;
+  w.b = k % 2;
+  w.carr[0] = k + 12; w.carr[1] = k + 13; w.carr[2] = k + 14;
+  w.lb = {{(std::int16_t)(k + 15), (std::int16_t)(k + 16), 0, 0}};
+  w.lbn = 2;
+  w.tab.a = "ta" + std::to_string(k);
+  w.tab.o = nop::Optional<Elem>{Elem{k + 17, "to" + std::to_string(k), k + 18}};
+  w.vv = {{"x" + std::to_string(k), "y"}, {}, {"z" + std::to_string(k)}};
+  w.mv = {{"m" + std::to_string(k), {k + 19, k + 20}}, {"n", {}}};
+  return w;
+}
+static std::string estr(const Elem& e) { return std::to_string(e.a) + "/" + e.b + "/" + std::to_string(e.c); }
+static std::string wstr(const Wide& w) {
+  std::string s = estr(w.arr[0]) + "," + estr(w.arr[1]) + "|" + std::to_string(w.pr.first) + w.pr.second + "|" + std::to_string(std::get<0>(w.tp)) + std::get<1>(w.tp) +
+                  std::to_string(std::get<2>(w.tp)) + "|";
+  for (auto& kv : w.um) s += std::to_string(kv.first) + kv.second;
+  s += "|" + (w.op ? w.op.get() : std::string("-")) + "|" + (w.none ? "SET" : "-") + "|" + std::to_string(w.var.index()) + ":" + (w.var.is<Elem>() ? estr(*w.var.get<Elem>()) : "?");
+  s += "|" + (w.res ? w.res.get() : std::string("E")) + "|" + (w.err ? std::string("V") : std::to_string((int)w.err.error())) + "|" + std::to_string((int)w.en) + "|";
+  for (int x : w.bin) s += std::to_string(x) + ",";
+  s += "|";
+  for (char16_t c : w.ws) s += std::to_string((int)c) + ",";
+  s += "|" + std::to_string(w.f) + "|" + std::to_string(w.b) + "|" + std::to_string(w.carr[0]) + "," + std::to_string(w.carr[1]) + "," + std::to_string(w.carr[2]) + "|" + std::to_string(w.lbn) + ":" +
+       std::to_string(w.lb[0]) + "," + std::to_string(w.lb[1]) + "|" + (w.tab.a ? w.tab.a.get() : std::string("-")) + "|" + (w.tab.o && w.tab.o.get() ? estr(w.tab.o.get().get()) : std::string("-")) + "|";
+  for (auto& v : w.vv) { for (auto& x : v) s += x + ","; s += ";"; }
+  s += "|";
+  for (auto& kv : w.mv) { s += kv.first + "="; for (int x : kv.second) s += std::to_string(x) + ","; s += ";"; }
+  return s;
+}
+static void body_wide(int k, Log& log) {
+  Wide v = make_wide(k);
+  YWriter w;
+  nop::Serializer<YWriter*> ser{&w};
+  auto st = ser.Write(v);
+  log.push_back(std::string("write:") + (st ? "ok" : "fail") + ":" + hex(w.out, 400));
+  log.push_back("size:" + std::to_string(ser.GetSize(v)));
+  YReader r{&w.out};
+  nop::Deserializer<YReader*> des{&r};
+  Wide back{};
+  back.var = std::string("prior");  // the destination starts in a different alternative
+  back.res = std::string("prior");
+  auto rs = des.Read(&back);
+  log.push_back(std::string("read:") + (rs ? std::string("ok") : std::string("fail:") + rs.GetErrorMessage()) + ":" + wstr(back) + (wstr(back) == wstr(v) ? ":same" : ":DIFFERENT"));
+}
+
 struct Body { const char* name; void (*fn)(int, Log&); };
 static const Body kBodies[] = {{"roundtrip", body_roundtrip}, {"table", body_table}, {"values", body_values}, {"rpc", body_rpc},
-                               {"tlsA", body_tls_a}, {"tlsB", body_tls_b}, {"rpcMethod", body_rpc_method}, {"tlsCtor", body_tls_ctor}};
-static const int kNumBodies = 8;
+                               {"tlsA", body_tls_a}, {"tlsB", body_tls_b}, {"rpcMethod", body_rpc_method}, {"tlsCtor", body_tls_ctor}, {"wide", body_wide}};
+static const int kNumBodies = 9;
 
 static std::string join(const Log& l) { std::string s; for (auto& x : l) s += x + "\n"; return s; }
 
@@ -461,13 +544,19 @@ int main(int argc, char** argv) {
   }
   const int bound = A.thorough() ? 3 : 2;
   std::vector<std::vector<int>> sets;
+  // "wide" shares template instantiations only with itself and with the two other serialisation bodies
   for (int a = 0; a < kNumBodies; a++)
-    for (int b = a; b < kNumBodies; b++) sets.push_back({a, b});
+    for (int b = a; b < kNumBodies; b++)
+      if (a != 8 && b != 8) sets.push_back({a, b});
+  sets.push_back({8, 8});
+  sets.push_back({0, 8});
+  sets.push_back({1, 8});
   sets.push_back({4, 4, 5});
   if (A.thorough()) { sets.push_back({0, 0, 0}); sets.push_back({4, 5, 5}); sets.push_back({0, 1, 4}); }
   for (size_t i = 0; i < sets.size(); i++) {
     if ((int)(i % A.nshards) != A.shard) continue;
-    explore_set(sets[i], sets[i].size() > 2 ? std::min(bound, 2) : bound);
+    const bool wide_set = sets[i].back() == 8;  // ~540 scheduling points: bound 3 would exceed the schedule cap
+    explore_set(sets[i], (sets[i].size() > 2 || wide_set) ? std::min(bound, 2) : bound);
   }
   R.sample("{\"bodies\":\"roundtrip+roundtrip\",\"schedule\":\"0000100000000100...\",\"meaning\":\"choice index among enabled threads at each scheduling point; 0 = keep running\"}");
   R.finish();
